@@ -129,13 +129,19 @@ taskreport {report_id} "{report_id}" {{
     temp_file = Path(temp_path)
 
     # Write combined content and close file descriptor
-    with os.fdopen(temp_fd, "w") as f:
-        # Include original file
-        f.write(f"# Original file: {tjp_path}\n")
-        f.write("# Auto-report added by plan CLI\n\n")
-        f.write(original_content)
-        f.write("\n\n")
-        f.write(auto_report)
+    try:
+        with os.fdopen(temp_fd, "w") as f:
+            # Include original file
+            f.write(f"# Original file: {tjp_path}\n")
+            f.write("# Auto-report added by plan CLI\n\n")
+            f.write(original_content)
+            f.write("\n\n")
+            f.write(auto_report)
+    except BaseException:
+        # The caller never learns the name of a file that could not be written
+        # (e.g. a file name that cannot be encoded): remove it here
+        temp_file.unlink(missing_ok=True)
+        raise
 
     return temp_file, report_id
 
